@@ -91,6 +91,9 @@ func (e *Quant) String() string {
 	if e.Lo == nil {
 		return "(" + q + " " + e.Var + " :: " + e.Body.String() + ")"
 	}
+	if e.Hi == nil {
+		return "(" + q + " " + e.Var + " in " + e.Lo.String() + " :: " + e.Body.String() + ")"
+	}
 	return "(" + q + " " + e.Var + " in " + e.Lo.String() + ".." + e.Hi.String() + " :: " + e.Body.String() + ")"
 }
 
@@ -244,8 +247,13 @@ func (ps *parser) expr() Expr {
 			if ps.peek().kind == "id" && ps.peek().s == "in" {
 				ps.next()
 				q.Lo = ps.additive()
-				ps.expect("..")
-				q.Hi = ps.additive()
+				if c, ok := q.Lo.(*Call); ok && (c.Fun == "keys" || c.Fun == "type") && !ps.isOp("..") {
+					// forall k in keys(m) :: body  -- k ranges over the keys present in map m
+					q.Hi = nil
+				} else {
+					ps.expect("..")
+					q.Hi = ps.additive()
+				}
 			}
 			ps.expect("::")
 			q.Body = ps.expr()
